@@ -75,6 +75,17 @@ def gen_sequences(ctx):
     return out
 
 
+SPELL = [0]
+
+
+def spell(name):
+    """the same property name in the spellings the mapping accepts: upper / lower / mixed case, str or bytes"""
+    SPELL[0] += 1
+    k = SPELL[0] % 6
+    n = [name, name.lower(), name.title(), name, name.lower(), name][k]
+    return n.encode("ascii") if k >= 3 else n
+
+
 def apply_op(comp, kind, op, provider):
     endname = "DTEND" if kind == 0 else "DUE"
     name = op[0]
@@ -97,11 +108,11 @@ def apply_op(comp, kind, op, provider):
         elif name == "del_DURATION":
             del comp.DURATION
         elif name == "add_DTSTART":
-            comp.add("DTSTART", val)
+            comp.add(spell("DTSTART"), val)
         elif name == "add_END":
-            comp.add(endname, val)
+            comp.add(spell(endname), val)
         elif name == "add_DURATION":
-            comp.add("DURATION", val)
+            comp.add(spell("DURATION"), val)
         else:
             raise AssertionError(name)
     except Exception as e:  # noqa: BLE001
